@@ -5,7 +5,7 @@
    of loop turns.  Time unit: 2^-10 s. *)
 From Coq Require Import List Arith ZArith Bool Lia.
 Import ListNotations.
-Require Import FV.Gen.C13 FV.C13.Model FV.C13.Lemmas FV.C13.Timing FV.C13.Refuted.
+Require Import FV.Gen.C13 FV.C13.Model FV.C13.Lemmas FV.C13.Timing.
 Local Open Scope Z_scope.
 
 (* obligations on the facts regenerated from /repo (Gen/C13.v) *)
@@ -14,7 +14,7 @@ Theorem C13_source_facts :
   poll_default_handler = true /\ poll_common_rest = false /\ thread_collects_only_polled = true /\
   callpoll_contains_exceptions = true /\ callpoll_reraise_guarded = true /\ mainloop_never_reraises = true /\
   main_due_rule = true /\ wait_rule = true /\ slow_fresh_twice = 1 /\ refill_rule = true /\ trigger_rule = true /\
-  0 < max_wait_ticks /\ 0 < startup_wait_ticks.
+  initialreads_contained = true /\ 0 < max_wait_ticks /\ 0 < startup_wait_ticks.
 Proof. repeat split; reflexivity. Qed.
 
 (* parameters marked as not polled (no read function, @nopoll, not the first key of a common handler), and
@@ -37,22 +37,16 @@ Proof.
   - rewrite Hd in He. discriminate He.
 Qed.
 
-(* full statement: for every outcome script the thread never ends except by a requested shutdown.
-   Proved with the exact guard excluding finding C13/initialreads-exception-kills-thread (no module overrides
-   initialReads); the excluded class is refuted in C13_refuted_initialreads_kills_thread. *)
-Theorem C13_survives_except_initialreads : forall W n t0 ds a,
-  (forall d, In d (map fst ds) -> iread d = false) ->
+(* for every outcome script (ok, SECoP error, silent error, any other exception, communication failure) of every read,
+   poll, configured write and initialReads call: no exception leaves the thread body, the thread ends only by a
+   requested shutdown (or at once when no module is polled), and without a shutdown request the module list is intact.
+   (Before fix 3828d54 this held only when no module overrode initialReads; the guard is gone.) *)
+Theorem C13_survives : forall W n t0 ds a,
   let s := run W n (init_state t0 ds a) in
   crashed s = false /\
   (finished s = true -> alive s = false \/ existsb enable (map fst ds) = false) /\
   (~ In AStop (map snd a) -> alive s = true).
-Proof. intros W n t0 ds a H. exact (survives W n t0 ds a H). Qed.
-
-Theorem C13_initialreads_refuted :
-  exists W ds, forall n,
-    let s := run W n (init_state 1024000 ds []) in
-    crashed s = true /\ started s = false /\ log s = [LIread 1024000 0].
-Proof. exact C13_refuted_initialreads_kills_thread. Qed.
+Proof. intros W n t0 ds a. exact (survives W n t0 ds a). Qed.
 
 (* In a period without run-time requests (acts = []), with every driver call lasting at most dmax: *)
 
@@ -122,10 +116,25 @@ Example C13_demo :
                  LTurn 1024059; LMain 1024059 1].
 Proof. vm_compute. auto. Qed.
 
+(* non-vacuity of C13_survives: initialReads of the first module raises an ordinary SECoP error; the start-up goes on,
+   the callback is called, both modules are polled *)
+Definition demo2_ds : list (mdesc * Z) :=
+  [({| enable := true; si := 1024; winit := false; iread := true; mainreads := [];
+       params := [{| pk := KRead; pnopoll := false |}] |}, 1024);
+   ({| enable := true; si := 1024; winit := false; iread := false; mainreads := [];
+       params := [{| pk := KRead; pnopoll := false |}] |}, 1024)].
+Definition demo2_W : world :=
+  {| script := fun n => match n with O => (64, OErr 3 0) | _ => (1, OOk) end; eps := 1; reconn := false |}.
+Example C13_demo_initialreads :
+  let s := run demo2_W 1 (init_state 1024000 demo2_ds []) in
+  crashed s = false /\ finished s = false /\ started s = true /\
+  rev (log s) = [LIread 1024000 0; LRead 1024064 0 0; LRead 1024065 1 0; LStarted 1024066;
+                 LTurn 1024067; LMain 1024067 0; LMain 1024068 1].
+Proof. vm_compute. auto. Qed.
+
 Print Assumptions C13_source_facts.
 Print Assumptions C13_nopoll_never_read.
-Print Assumptions C13_survives_except_initialreads.
-Print Assumptions C13_initialreads_refuted.
+Print Assumptions C13_survives.
 Print Assumptions C13_wakeup_by_due.
 Print Assumptions C13_main_invariant.
 Print Assumptions C13_main_bound.
